@@ -19,9 +19,9 @@ RULE = ('a case = one stack configuration (data link layer; 0-3 CAs, each not st
         'distinct = the configuration')
 ASSUMPTIONS = ['the expected set is computed from the harness\'s own bookkeeping, never by calling the stack\'s predicates',
                'for owned destinations only single-frame messages are judged here (transport to owned addresses is C01/C02/C03)']
-MIN_OBS = {'frames_injected': {'quick': 100000, 'thorough': 1500000}, 'unowned_protocol_frames': {'quick': 30000, 'thorough': 400000},
-           'callbacks_expected': {'quick': 50000, 'thorough': 700000}, 'flag_combinations': {'quick': 300, 'thorough': 4000},
-           'foreign_sessions': {'quick': 80, 'thorough': 1200}}
+MIN_OBS = {'frames_injected': {'quick': 250000, 'thorough': 3000000}, 'unowned_protocol_frames': {'quick': 100000, 'thorough': 1000000},
+           'callbacks_expected': {'quick': 100000, 'thorough': 1000000}, 'flag_combinations': {'quick': 1000, 'thorough': 10000},
+           'foreign_sessions': {'quick': 300, 'thorough': 3000}, 'listener_at_address_0': {'quick': 5, 'thorough': 50}}
 
 CA_STATES = ['none', 'wait_veto', 'normal', 'bypass', 'cannot', 'moved']
 
@@ -29,7 +29,7 @@ CA_STATES = ['none', 'wait_veto', 'normal', 'bypass', 'cannot', 'moved']
 def cases(tier, seed):
     rng = random.Random(5000 + seed)
     out = []
-    n = 24 if tier == 'quick' else 400
+    n = 60 if tier == 'quick' else 800
     for layer in ('j1939-21', 'j1939-22'):
         # every single-CA state once, then random combinations
         for st in CA_STATES:
@@ -75,6 +75,9 @@ def run_case(case):
         nv = C.name_value(identity_number=100 + i, function=20, arbitrary_address_capable=aac)
         if st == 'wait_veto':
             pref = fresh(130, 240)
+        elif st in ('bypass', 'normal') and 0 not in used and rng.random() < 0.3:
+            pref = 0
+            used.update((0, 1))
         else:
             pref = fresh(2, 120)
         ca = W.ca(A, pref, name_value=nv, bypass=(st == 'bypass'))
@@ -95,7 +98,13 @@ def run_case(case):
             listeners['ecu_all'] = dict(kind='all')
         elif ln in ('int', 'int2'):
             # sometimes an address a CA holds, mostly its own
-            a = rng.choice([c['pref'] for c in cas]) if (cas and rng.random() < 0.3) else fresh(2, 250)
+            if cas and rng.random() < 0.25:
+                a = rng.choice([c['pref'] for c in cas])
+            elif rng.random() < 0.4 and [b for b in (0, 1, 253) if b not in used]:
+                a = rng.choice([b for b in (0, 1, 253) if b not in used])       # boundary addresses (0 is falsy!)
+                used.add(a)
+            else:
+                a = fresh(2, 250)
             A.ecu.subscribe(mkcb('ecu_' + ln), a)
             listeners['ecu_' + ln] = dict(kind='int', addr=a)
         else:
@@ -142,7 +151,7 @@ def run_case(case):
                 out.add(nm)
         return out
 
-    obs = dict(frames_injected=0, unowned_protocol_frames=0, callbacks_expected=0, flag_combinations=0, foreign_sessions=0, owned_addresses_max=len(held | int_addrs))
+    obs = dict(listener_at_address_0=1 if 0 in int_addrs else 0, frames_injected=0, unowned_protocol_frames=0, callbacks_expected=0, flag_combinations=0, foreign_sessions=0, owned_addresses_max=len(held | int_addrs))
 
     def snapshot():
         return ({k: len(v) for k, v in fired.items()}, len(W.bus.frames), A.tables())
